@@ -4,6 +4,7 @@ from .. import gen_lat
 from ..judge import convert_deck, crash_violation, region_agreement, summarise
 
 ID = 'C06'
+UPSTREAM_DECKS = True
 LEVEL = 'exploration'
 RULE = ('LAT=1 decks generated from chosen a1..a3 (1, 2, 3 dimensions; '
         'orthogonal, skew, arbitrarily rotated unit cells), either plane of '
